@@ -128,6 +128,7 @@ type Responder struct {
 	MAC      net.HardwareAddr
 	Delay    time.Duration
 	SenderIP net.IP // nil: the probed address (a correct answer); otherwise a wrong sender address (noise)
+	Pad      bool   // the reply arrives padded to the Ethernet minimum (46 bytes), as on a real segment
 }
 
 type SrvEnv struct {
@@ -188,6 +189,9 @@ func (e *SrvEnv) onSend(f rsocks.Frame) {
 		sip = r.SenderIP
 	}
 	reply := layer.ARP{Opcode: 2, SenderMAC: r.MAC, SenderIP: sip, TargetMAC: f.Payload[8:14], TargetIP: net.IP(f.Payload[14:18])}.Assemble()
+	if r.Pad || target%2 == 1 { // odd addresses: always padded
+		reply = append(reply, make([]byte, 18)...)
+	}
 	e.wg.Add(1)
 	go func() {
 		defer e.wg.Done()
@@ -273,7 +277,7 @@ func Observe(trx int64, sent, injected []TapFrame) Obs {
 			// first injected ARP frame inside this ping's window whose sender address is the target
 			answered := false
 			for _, a := range injected {
-				if a.At >= r.At && a.At < r.At+pingNs && len(a.B) == 28 && bytes.Equal(a.B[14:18], r.B[24:28]) {
+				if a.At >= r.At && a.At < r.At+pingNs && len(a.B) >= 28 && bytes.Equal(a.B[14:18], r.B[24:28]) {
 					p.Ans = net.HardwareAddr(a.B[8:14])
 					p.Te = a.At
 					answered = true
